@@ -5,12 +5,12 @@
 (* get_deferred_dir - walkdir 2.5, src/lib.rs) driven by process_dir       *)
 (* (src/find/mod.rs), on the file-tree model of FindWalk.  One action per  *)
 (* iteration of the iterator's loop.  MC_WalkImpl checks that what this    *)
-(* machine yields is the reference walk of FindWalk - except for two named *)
-(* deviations, which are the open findings of C02/C03/C18:                 *)
-(*   DevRootLink   with -H and -depth a starting point that is a link to a *)
-(*                 directory is yielded before its contents: the entry is  *)
-(*                 still a symbolic link for walkdir (follow_links is off), *)
-(*                 so it is pushed but not deferred;                        *)
+(* machine yields is the reference walk of FindWalk - except for one named  *)
+(* deviation, the open finding of C02:                                     *)
+(*   (with -H and -depth a starting point that is a link to a directory is *)
+(*   yielded by walkdir before its contents: to walkdir it is a symbolic   *)
+(*   link, pushed through the root special case but not deferred;          *)
+(*   process_dir holds it back - `held` - since the repair 9d712f1)        *)
 (*   DevLostLink   under -L a link to a directory that cannot be opened is *)
 (*                 lost: the loop check in follow() opens the target and   *)
 (*                 its error replaces the entry.                           *)
@@ -24,9 +24,10 @@ VARIABLES
   out,       \* what process_dir evaluated, in order
   errs,      \* walk errors reported by process_dir
   phase,     \* "start" | "loop" | "done"
-  skipped    \* the last step ended with process_dir calling skip_current_dir()
+  skipped,   \* the last step ended with process_dir calling skip_current_dir()
+  held       \* process_dir's held_root: <<>> or <<entry>>
 
-wvars == <<stack, deferred, out, errs, phase, skipped>>
+wvars == <<stack, deferred, out, errs, phase, skipped, held>>
 
 FollowLinks(cfg) == cfg.mode = "L"
 FollowRoot(cfg) == cfg.mode # "P"
@@ -69,21 +70,25 @@ Handle(tree, cfg, path, node, depth, anc, root) ==
 
 \* what one handled entry does to the state (tree, cfg, root: the run's constants)
 Apply(tree, cfg, root, h, st) ==
-  IF h.kind = "lost" THEN [stack |-> st.stack, deferred |-> st.deferred, out |-> st.out, errs |-> st.errs + 1, skip |-> FALSE]
+  IF h.kind = "lost" THEN [stack |-> st.stack, deferred |-> st.deferred, out |-> st.out, errs |-> st.errs + 1, skip |-> FALSE, held |-> st.held]
   ELSE
     LET e == h.e
         pushed == IF h.push THEN Append(st.stack, Frame(tree, e.path, e.eff, e.depth)) ELSE st.stack
-    IN IF h.defer THEN [stack |-> pushed, deferred |-> Append(st.deferred, e), out |-> st.out, errs |-> st.errs, skip |-> FALSE]
-       ELSE IF Skippable(cfg, e.depth) \/ ~Evaluated(cfg, e) THEN [stack |-> pushed, deferred |-> st.deferred, out |-> st.out, errs |-> st.errs, skip |-> FALSE]
+        \* walkdir does not defer a starting point that is a link followed because of -H (to walkdir it is a link);
+        \* process_dir holds it back until the iterator is exhausted
+        hold == cfg.depth /\ cfg.mode = "H" /\ e.depth = 0 /\ tree[e.node].kind = "l" /\ e.dir
+    IN IF h.defer THEN [stack |-> pushed, deferred |-> Append(st.deferred, e), out |-> st.out, errs |-> st.errs, skip |-> FALSE, held |-> st.held]
+       ELSE IF Skippable(cfg, e.depth) \/ ~Evaluated(cfg, e) THEN [stack |-> pushed, deferred |-> st.deferred, out |-> st.out, errs |-> st.errs, skip |-> FALSE, held |-> st.held]
+       ELSE IF hold THEN [stack |-> pushed, deferred |-> st.deferred, out |-> st.out, errs |-> st.errs, skip |-> FALSE, held |-> <<e>>]
        ELSE [stack |-> IF PruneFires(tree, cfg, e, root) /\ pushed # <<>> THEN SubSeq(pushed, 1, Len(pushed) - 1) ELSE pushed,
              deferred |-> st.deferred, out |-> Append(st.out, e), errs |-> st.errs,
              \* (skip_current_dir() is called whenever -prune fired; with an empty stack it does nothing)
-             skip |-> PruneFires(tree, cfg, e, root)]
+             skip |-> PruneFires(tree, cfg, e, root), held |-> st.held]
 
-St == [stack |-> stack, deferred |-> deferred, out |-> out, errs |-> errs, skip |-> FALSE]
-Set(s) == stack' = s.stack /\ deferred' = s.deferred /\ out' = s.out /\ errs' = s.errs /\ skipped' = s.skip
+St == [stack |-> stack, deferred |-> deferred, out |-> out, errs |-> errs, skip |-> FALSE, held |-> held]
+Set(s) == stack' = s.stack /\ deferred' = s.deferred /\ out' = s.out /\ errs' = s.errs /\ skipped' = s.skip /\ held' = s.held
 
-WInit == stack = <<>> /\ deferred = <<>> /\ out = <<>> /\ errs = 0 /\ phase = "start" /\ skipped = FALSE
+WInit == stack = <<>> /\ deferred = <<>> /\ out = <<>> /\ errs = 0 /\ phase = "start" /\ skipped = FALSE /\ held = <<>>
 
 \* the starting point
 Start(tree, cfg, root) ==
@@ -100,26 +105,26 @@ YieldDeferred(tree, cfg, root) ==
   /\ LET e == deferred[Len(deferred)] IN
      /\ deferred' = SubSeq(deferred, 1, Len(deferred) - 1)
      /\ out' = IF Skippable(cfg, e.depth) \/ ~Evaluated(cfg, e) THEN out ELSE Append(out, e)
-  /\ skipped' = FALSE /\ UNCHANGED <<stack, errs, phase>>
+  /\ skipped' = FALSE /\ UNCHANGED <<stack, errs, phase, held>>
 
 NoDeferredDue(cfg) == ~(cfg.depth /\ Len(stack) < Len(deferred))
 
 \* beyond -maxdepth: the frame is dropped unread
 PopDeep(tree, cfg, root) ==
   /\ phase = "loop" /\ stack # <<>> /\ NoDeferredDue(cfg) /\ Len(stack) > cfg.max
-  /\ stack' = SubSeq(stack, 1, Len(stack) - 1) /\ skipped' = FALSE /\ UNCHANGED <<deferred, out, errs, phase>>
+  /\ stack' = SubSeq(stack, 1, Len(stack) - 1) /\ skipped' = FALSE /\ UNCHANGED <<deferred, out, errs, phase, held>>
 
 \* a directory that cannot be listed: its frame yields one error and is dropped
 ReadError(tree, cfg, root) ==
   /\ phase = "loop" /\ stack # <<>> /\ NoDeferredDue(cfg) /\ Len(stack) <= cfg.max
   /\ Unreadable(tree[stack[Len(stack)].eff])
-  /\ errs' = errs + 1 /\ stack' = SubSeq(stack, 1, Len(stack) - 1) /\ skipped' = FALSE /\ UNCHANGED <<deferred, out, phase>>
+  /\ errs' = errs + 1 /\ stack' = SubSeq(stack, 1, Len(stack) - 1) /\ skipped' = FALSE /\ UNCHANGED <<deferred, out, phase, held>>
 
 \* the top frame is exhausted
 PopDone(tree, cfg, root) ==
   /\ phase = "loop" /\ stack # <<>> /\ NoDeferredDue(cfg) /\ Len(stack) <= cfg.max
   /\ ~Unreadable(tree[stack[Len(stack)].eff]) /\ stack[Len(stack)].rest = <<>>
-  /\ stack' = SubSeq(stack, 1, Len(stack) - 1) /\ skipped' = FALSE /\ UNCHANGED <<deferred, out, errs, phase>>
+  /\ stack' = SubSeq(stack, 1, Len(stack) - 1) /\ skipped' = FALSE /\ UNCHANGED <<deferred, out, errs, phase, held>>
 
 \* the next child of the top frame
 NextChild(tree, cfg, root) ==
@@ -139,8 +144,11 @@ Drain(tree, cfg, root) ==
      THEN LET e == deferred[Len(deferred)] IN
           /\ deferred' = SubSeq(deferred, 1, Len(deferred) - 1)
           /\ out' = IF Skippable(cfg, e.depth) \/ ~Evaluated(cfg, e) THEN out ELSE Append(out, e)
-          /\ skipped' = FALSE /\ UNCHANGED <<stack, errs, phase>>
-     ELSE phase' = "done" /\ skipped' = FALSE /\ UNCHANGED <<stack, deferred, out, errs>>
+          /\ skipped' = FALSE /\ UNCHANGED <<stack, errs, phase, held>>
+     ELSE IF held # <<>>
+     THEN \* the iterator is exhausted: the starting point that was held back is evaluated now
+          /\ out' = Append(out, held[1]) /\ held' = <<>> /\ skipped' = FALSE /\ UNCHANGED <<stack, deferred, errs, phase>>
+     ELSE phase' = "done" /\ skipped' = FALSE /\ UNCHANGED <<stack, deferred, out, errs, held>>
 
 WNext(tree, cfg, root) ==
   \/ Start(tree, cfg, root) \/ YieldDeferred(tree, cfg, root) \/ PopDeep(tree, cfg, root)
@@ -149,8 +157,6 @@ WNext(tree, cfg, root) ==
 (***************************************************************************)
 (* The named deviations and the refinement statement.                      *)
 (***************************************************************************)
-DevRootLink(tree, cfg, root) ==
-  cfg.mode = "H" /\ cfg.depth /\ tree[root.node].kind = "l" /\ tree[root.node].target # 0 /\ tree[tree[root.node].target].kind = "d"
 \* some followed link (at any depth, -L) points to a directory that cannot be opened
 DevLostLink(tree, cfg) ==
   cfg.mode = "L" /\ \E i \in DOMAIN tree : tree[i].kind = "l" /\ tree[i].target # 0 /\ tree[tree[i].target].kind = "d" /\ Unreadable(tree[tree[i].target])
@@ -160,10 +166,6 @@ Ref(tree, cfg, root) == Walk(tree, cfg, root.spell, root.node, 0, {})
 \* when the machine is done: what it yielded is the reference walk, and as many errors
 Refines(tree, cfg, root) ==
   phase = "done" =>
-    IF DevRootLink(tree, cfg, root)
-    THEN \* the same entries, but the starting point first instead of last
-         LET r == Ref(tree, cfg, root).ents IN
-         IF r # <<>> /\ r[Len(r)].depth = 0 THEN out = <<r[Len(r)]>> \o SubSeq(r, 1, Len(r) - 1) ELSE out = r
-    ELSE IF DevLostLink(tree, cfg) THEN TRUE
+    IF DevLostLink(tree, cfg) THEN TRUE
     ELSE out = Ref(tree, cfg, root).ents /\ errs = Ref(tree, cfg, root).errs
 =============================================================================
